@@ -27,12 +27,6 @@ def linspace (start stop : Rat) (n : Nat) : List Rat :=
 /-- number of steps of `makeLinearlyVaryingSequence` -/
 def linCount (start stop step : Rat) : Int := Gen.linCount start stop step
 
-/-- lift a state-transforming call that may raise into `Except` -/
-def _root_.BB.Res.toExcept {σ : Type} (r : Res σ) : Except Err σ :=
-  match r.err with
-  | some er => .error er
-  | none => .ok r.st
-
 /-- the loop of `makeLinearlyVaryingSequence`: for the `ind`-th value, copy the base element,
     apply the change, add it at position `ind` -/
 def linLoop (base : Element) (ch : Chan) (name : String) (arg : Val) :
